@@ -102,13 +102,55 @@ class Engine:
         if errs:
             raise vlib.BuildError(errs[0])
 
+    # ---------- a second file system whose root directory has the inode number of "/" ----------
+    def ensure_mount(self):
+        """<root>/ins (mode 0777, no sticky bit) / mnt = a small ext2 file system: its root directory has inode 2, like "/" on
+        an ext file system, so only the device number tells the two apart.  Returns the mount point or None (no privilege)."""
+        with self.lock:
+            if hasattr(self, "mnt"):
+                return self.mnt
+            self.mnt = None
+            ins = os.path.join(self.root, "ins")
+            mnt = os.path.join(ins, "mnt")
+            img = os.path.join(self.root, "fs.img")
+            try:
+                os.makedirs(mnt, exist_ok=True)
+                with open(img, "wb") as fh:
+                    fh.truncate(8 << 20)
+                if subprocess.run(["mke2fs", "-q", "-F", img], capture_output=True, timeout=60).returncode != 0:
+                    return None
+                if subprocess.run(["mount", "-o", "loop", img, mnt], capture_output=True, timeout=60).returncode != 0:
+                    return None
+                import atexit
+                atexit.register(self.unmount)
+                os.chown(mnt, 0, 0); os.chmod(mnt, 0o755)
+                os.makedirs(os.path.join(mnt, "cases"), exist_ok=True)
+                os.chown(ins, 0, 0); os.chmod(ins, 0o777)
+                if os.stat(mnt).st_ino != os.stat("/").st_ino:
+                    self.ctx.notes.append("second file system: its root inode %d differs from that of / (%d)" % (os.stat(mnt).st_ino, os.stat("/").st_ino))
+                self.mnt = mnt
+            except (OSError, subprocess.SubprocessError):
+                self.mnt = None
+            return self.mnt
+
+    def unmount(self):
+        m = getattr(self, "mnt", None)
+        if m:
+            subprocess.run(["umount", "-l", m], capture_output=True)
+            self.mnt = None
+
     # ---------- a case on disk ----------
     def materialize(self, case):
         """create the directory chain and the entries of one case; returns (moddir, case root)"""
         with self.lock:
             self.seq += 1
             n = self.seq
-        croot = os.path.join(self.root, "cases", "c%d" % n)
+        base = os.path.join(self.root, "cases")
+        if case.get("mounted"):
+            m = self.ensure_mount()
+            if m:
+                base = os.path.join(m, "cases")
+        croot = os.path.join(base, "c%d" % n)
         os.mkdir(croot)
         p = croot
         dirs = []
